@@ -336,6 +336,36 @@ Proof.
   now rewrite (has_ann_ext mine mine' a H), IH.
 Qed.
 
+(** ** double registration (--split-internal: the namespace packages' metamini.go and package meta both call
+    FillObject / FillFunction for the same items, in either order): registering items whose names are already
+    registered changes nothing -- neither the ordered list nor, therefore, any lookup by name or by tag *)
+Lemma fill_known reg it : has_name (it_name it) reg = true -> fill reg it = reg.
+Proof. intro H. unfold fill. now rewrite H. Qed.
+
+Lemma fold_fill_absorb : forall extra reg,
+  (forall it, In it extra -> In (it_name it) (map it_name reg)) -> fold_left fill extra reg = reg.
+Proof.
+  induction extra as [|e extra IH]; intros reg H; cbn [fold_left]; [reflexivity|].
+  rewrite fill_known by (apply has_name_In; apply H; now left). apply IH. intros it Hin. apply H. now right.
+Qed.
+
+Theorem registry_twice all s ms :
+  fold_left fill (cands_from all 0 s ms ++ cands_from all 0 s ms) [] = registry all s ms.
+Proof.
+  rewrite fold_left_app. fold (registry all s ms). apply fold_fill_absorb. intros it Hin.
+  (* every candidate's name is registered after the first pass *)
+  assert (G : forall cands acc x, In x cands \/ In (it_name x) (map it_name acc) ->
+              In (it_name x) (map it_name (fold_left fill cands acc))).
+  { clear. induction cands as [|c r IH]; intros acc x H; cbn [fold_left].
+    - destruct H as [[]|H]; exact H.
+    - apply IH. destruct H as [[->|H]|H].
+      + right. unfold fill. destruct (has_name (it_name x) acc) eqn:E; [now apply has_name_In|].
+        rewrite map_app. apply in_app_iff. right. now left.
+      + now left.
+      + right. unfold fill. destruct (has_name (it_name c) acc); [exact H|]. rewrite map_app. apply in_app_iff. now left. }
+  unfold registry. apply G. now left.
+Qed.
+
 (** no bit outside the annotation table is ever set *)
 Theorem ann_mask_no_other_bits all mine : forall bit n,
   bit + lenN all <= n -> N.testbit (ann_mask_from bit all mine) n = false.
